@@ -2,7 +2,7 @@
 From Coq Require Import List NArith Bool.
 From Frugal Require Import Bytes Wire Skip Values Desc Spec Encode Decode Checks Tags State Bitset Alloc DescMap Conc LegacyDefs.
 From Frugal.gen Require Import Params.
-From Frugal.proofs Require Import GenOk BytesWire EncodeSpec SizeExact SkipPut DecodeSafe DecodeRefines RoundTrip Corollaries StateProofs BitsetProofs AllocProofs DescMapProofs ConcProofs BufferContract.
+From Frugal.proofs Require Import GenParams EncodeSpec RoundTrip.
 From Frugal.props Require Import Examples.
 Import ListNotations.
 
@@ -38,3 +38,8 @@ Example C10_instance :
   append_struct env_ex 1 (VT [VS 0; VB false []; VS 7] []) = [4; 0; 1; 0; 0; 0; 0; 0; 0; 0; 0; 11; 0; 2; 0; 0; 0; 0; 0]%N
   /\ decode_object env_ex [] 1 [4; 0; 1; 0; 0; 0; 0; 0; 0; 0; 0; 0]%N (fresh env_ex 1) = DOk (VT [VS 0; VB true []; VS 7] [], 12%N) [].
 Proof. split; vm_compute; reflexivity. Qed.
+
+(* the side conditions on the generated constants and tables that the theorems above assume hold
+   for what the translator read from the sources of this run *)
+Theorem C10_side_conditions : params_ok = true.
+Proof. exact params_ok_holds. Qed.
